@@ -40,7 +40,7 @@ REGISTRY = dict(
 
 FUEL = 3000
 POOL_OLD = int(os.environ.get("C01_POOL_OLD", "0"))   # 1: compare with the model of the pool lookup before the repair (debugging aid)
-CLASSES = ["known_marshal_nat", "known_nat_cast", "known_enum_arith"]
+CLASSES = ["known_marshal_nat", "known_nat_cast", "known_enum_arith", "known_quote_ambiguity"]
 CLS_NAME = {1: "Nat", 2: "Int", 3: "Float", 4: "Str", 5: "Bool", 6: "List"}
 
 # witnesses that are always run (signed zeros, Int/Nat pool pair, naturals at 2**31 / 2**63, mutate operator in a dead branch)
@@ -123,7 +123,8 @@ def enc_pre_consts(pre):
     out = []
     for k, c in enumerate(pre):
         if c[0] == "int":
-            out.append([1, c[1]])      # emit_load_const(0) in the prelude is an i32: ValueObj::Int
+            # emit_load_const(0) in the prelude: impl From<i32> for ValueObj gives Nat for a non-negative i32
+            out.append([0, c[1]] if c[1] >= 0 else [1, c[1]])
         elif c[0] == "str":
             out.append([3, c[1]])
         else:
@@ -415,7 +416,7 @@ def run_with(ctx, runner, proof, bad_ops):
         if e.obs != c.model and c.oracle == c.model:
             if runner.judge(c):
                 continue     # differs only in something the property does not talk about (cannot happen today)
-            cls = [k for k, v in zip(CLASSES, c.flags[2:5]) if v == 1]
+            cls = [k for k, v in zip(CLASSES, c.flags[2:2 + len(CLASSES)]) if v == 1]
             hit = [k for k in cls if k in known]
             if hit:
                 by_class[hit[0]].append(c)
